@@ -312,7 +312,8 @@ def check_table(m, phase, fe, cfg, report):
             report("gradient-not-zero",
                    "tabulated point T=%.10g fields=%s is %.3g (Newton step) away from a "
                    "critical point, tolerance %.3g" % (Ti, x.tolist(), step, tolx),
-                   dict(T=float(Ti), x=x.tolist()))
+                   dict(T=float(Ti), x=x.tolist(), err=step, noise=fd_noise(v, emin),
+                        size=float(np.linalg.norm(x))))
         elif dist > 2 * tolx + step and min(abs(Ti - ph.Tlo), abs(Ti - ph.Thi)) < 3 * slack:
             # a genuine minimum of another phase right at the spinodal: same event as a hop
             beyond_min.append((float(Ti), x.tolist(), emin))
@@ -470,7 +471,9 @@ def check_table(m, phase, fe, cfg, report):
             if d > tolx:
                 report(ikey,
                        "interpolated fields at T=%.10g are %s, closed form %s: error %.3g > "
-                       "%.3g" % (Tm, x.tolist(), exact.tolist(), d, tolx), dict(T=float(Tm)))
+                       "%.3g" % (Tm, x.tolist(), exact.tolist(), d, tolx),
+                       dict(T=float(Tm), err=d, noise=fd_noise(v, emin),
+                            size=float(np.linalg.norm(exact))))
             vex = m.V(exact, Tm)
             # V is stationary at the minimum: error quadratic in the field error
             modelv = max(1e-9, rTol) * abs(vex) + 10 * max(emin, 0.02 * Ts ** 2) * model ** 2 \
@@ -597,12 +600,27 @@ def note_hop(ctx, m, cfg, worst):
     return hopped
 
 
+def fd_noise(v, emin):
+    """how far scipy's BFGS can be off because of rounding in its forward-difference gradient
+    (absolute step 1.49e-8): 2 eps_mach |V| / step / curvature"""
+    return 2 * 2.2e-16 * abs(v) / 1.4901161193847656e-08 / max(emin, 1e-300)
+
+
 MINIMISER_KEYS = ("gradient-not-zero", "interpolation-error", "interpolation-error-veff",
                   "wrong-branch")
 
 
-def classify(m, cfg, key):
+def classify(m, cfg, key, extra=None):
     """narrow class rules of the findings recorded for histories / perturbed guesses"""
+    extra = extra or {}
+    if cfg.get("guess") and m.unit < 100 and key in ("gradient-not-zero", "interpolation-error") \
+            and "err" in extra and extra["err"] <= min(extra["noise"],
+                                                       abs(cfg["guess"]) * extra["size"]):
+        # recorded: from an APPROXIMATE guess the minimiser has to move, and its
+        # forward-difference gradient (absolute step 1.49e-8, potential with an O(T^4)
+        # offset) is only good to ~1e-5 relative: the error is inside that noise bound and
+        # below the error of the guess
+        return "minimiser-noise-limits-accuracy"
     if cfg.get("guess") and m.unit >= 100 and key in MINIMISER_KEYS:
         # recorded: in LARGE units scipy's absolute finite-difference step is rounding noise,
         # findLocalMinimum does not move, the table inherits the error of the guess
@@ -618,7 +636,7 @@ def classify(m, cfg, key):
 def emit(ctx, m, cfg, fails, kind, prefix=""):
     seen = set()
     for key, what, extra in fails:
-        key = classify(m, cfg, key)
+        key = classify(m, cfg, key, extra)
         if key in seen:
             continue
         seen.add(key)
@@ -662,7 +680,7 @@ def run_trace_case(ctx, cfg, tag):
     if ok:
         n, worst = check_table(m, cfg["phase"], fe, cfg, report)
         note_hop(ctx, m, cfg, worst)
-        if not (cfg.get("guess") and (fails or m.unit >= 100)):
+        if not cfg.get("guess"):       # (an approximate guess is another error regime)
             note_worst(ctx, worst, cfg)
         for _ in range(n):
             ctx.count("direct_" + tag)
@@ -1223,6 +1241,10 @@ def path_cfgs(rng, count, units=(1.0,)):
         out.append(cfg)
     return out
 
+
+# cbd1b7a: phaseTracerFirstStep was handed to scipy as an absolute step (ValueError in small
+# units) although documented in units of dT
+DIRECTED += [{"model": {"model": "quartic1", "D": 0.2, "E": 0.05, "lam": 0.1, "T0": 80.0, "g": 100.0, "unit": 0.001}, "phase": "broken", "Tstart": 0.07, "TMin": 0.06, "TMax": 0.08, "dT": 0.0005, "rTol": 1e-06, "paranoid": True, "firstStep": 0.5}]
 
 # boundary values of the arguments (all fine on the unchanged tree); a start temperature
 # OUTSIDE [TMin, TMax] is refused loudly (ValueError from the spline) and is not generated
